@@ -136,7 +136,7 @@ Proof.
   assert (Hndd : NoDup (map d_digest ds)).
   { rewrite Hm. clear -HndL hash_inj. induction HndL as [|s r Hni _ IH]; cbn; constructor; [|assumption].
     intros Hin. apply in_map_iff in Hin as [s' [Hq Hs']]. apply hash_inj in Hq. subst. contradiction. }
-  destruct (restore_all H enc show_nat t Hwf Hnd Hndh Hheight ds HF Hndd) as [ps Hps].
+  destruct (restore_all H enc show_nat t Hwf Hnd Hndh Hheight ds HF Hndd) as (ps & Hps & _ & _).
   exists ps. rewrite <- (view_R0_blind H enc), Hps. f_equal. f_equal.
   apply view_ext. intros g _. apply own_ownS. assumption.
 Qed.
@@ -152,7 +152,7 @@ Proof.
   assert (Hndd : NoDup (map d_digest ds)).
   { rewrite Hm. clear -HndL hash_inj. induction HndL as [|s r Hni _ IH]; cbn; constructor; [|assumption].
     intros Hin. apply in_map_iff in Hin as [s' [Hq Hs']]. apply hash_inj in Hq. subst. contradiction. }
-  destruct (restore_all H enc show_nat t Hwf Hnd Hndh Hheight ds HF Hndd) as [ps Hps].
+  destruct (restore_all H enc show_nat t Hwf Hnd Hndh Hheight ds HF Hndd) as (ps & Hps & _ & _).
   exists ps. rewrite <- (view_R0_blind H enc), Hps. f_equal. f_equal.
   apply view_ext. intros g _. apply own_ownS. assumption.
 Qed.
